@@ -37,7 +37,11 @@ def _strategy(draw):
     if route == "graph" and draw(st.integers(0, 2)) == 0 and n >= 2:
         for _ in range(draw(st.integers(1, 3))):
             labels.append([draw(st.integers(0, n - 2)), draw(st.sampled_from(["a", "b"]))])
+    # node keys of the input graph need not start at 0, and the edge records may come in any order
+    key_offset = draw(st.sampled_from([0, 0, 1, 7])) if route in ("graph", "gen_params") else 0
+    edge_order = list(draw(st.permutations(range(max(n - 1, 0))))) if route == "graph" and draw(st.booleans()) else None
     return {"bases": bases, "circular": circular, "route": route, "bad": bad, "edge_labels": labels,
+            "key_offset": key_offset, "edge_order": edge_order,
             "rng": draw(st.integers(0, 2**31 - 1))}
 
 
@@ -99,15 +103,21 @@ def check(spec, ctx):
     edge_labels = {}
     if route == "graph":
         graph = nx.Graph()
+        off = spec.get("key_offset", 0)
         for i, name in enumerate(names):
-            graph.add_node(i, resname=name, resid=i + 1)
-        for i in range(n - 1):
-            graph.add_edge(i, i + 1)
+            graph.add_node(i + off, resname=name, resid=i + 1)
+        order = spec.get("edge_order") or list(range(n - 1))
+        for i in order:
+            graph.add_edge(i + off, i + 1 + off)
         for pos, lab in spec["edge_labels"]:
-            graph.edges[(pos, pos + 1)]["tag"] = lab
+            graph.edges[(pos + off, pos + 1 + off)]["tag"] = lab
             edge_labels[frozenset((pos + 1, pos + 2))] = lab
         if spec["circular"]:
-            graph.add_edge(0, n - 1, linktype="circle")
+            graph.add_edge(off, n - 1 + off, linktype="circle")
+        if off:
+            ctx.label("offset_node_keys")
+        if spec.get("edge_order") and spec["edge_order"] != sorted(spec["edge_order"]):
+            ctx.label("permuted_edge_records")
         meta = MetaMolecule(graph, force_field=ff, mol_name="mol")
     elif route == "ig":
         if spec["bad"]:
@@ -206,10 +216,24 @@ def check_gen_params(spec, ctx, names):
     text += FF_LINKS.format(all="|".join(all_names))
     (ctx.dir / "dna.ff").write_text(text)
     letters = "".join(b[1] for b in spec["bases"])
-    (ctx.dir / "seq.ig").write_text("; DNA\ntitle\n" + letters + ("2" if spec["circular"] else "1") + "\n")
+    off = spec.get("key_offset", 0)
+    if off:
+        import json
+        nn = len(names)
+        data = {"directed": False, "multigraph": False, "graph": {},
+                "nodes": [{"id": i + off, "resname": names[i], "resid": i + 1} for i in range(nn)],
+                "edges": [{"source": i + off, "target": i + 1 + off} for i in range(nn - 1)]}
+        if spec["circular"]:
+            data["edges"].append({"source": off, "target": nn - 1 + off, "linktype": "circle"})
+        seq_path = ctx.dir / "seq.json"
+        seq_path.write_text(json.dumps(data))
+        ctx.label("offset_node_keys")
+    else:
+        seq_path = ctx.dir / "seq.ig"
+        seq_path.write_text("; DNA\ntitle\n" + letters + ("2" if spec["circular"] else "1") + "\n")
     out = ctx.dir / "out.itp"
     try:
-        gen_params(name="mol", outpath=out, inpath=[ctx.dir / "dna.ff"], seq_file=ctx.dir / "seq.ig", dsdna=True)
+        gen_params(name="mol", outpath=out, inpath=[ctx.dir / "dna.ff"], seq_file=seq_path, dsdna=True)
     except Exception as err:
         raise crash("gen_params_dsdna:crash", err)
     if not out.exists():
